@@ -84,7 +84,7 @@ func (b *Built) fillMsg(dst reflect.Value, m *Message, v *Val) {
 		panic(fmt.Sprintf("pschema: value has %d fields, message %d", len(v.L), len(m.Fields)))
 	}
 	for i := range m.Fields {
-		b.fillField(dst.Field(i), &m.Fields[i], &v.L[i])
+		b.fillField(dst.Field(m.GoIndex(i)), &m.Fields[i], &v.L[i])
 	}
 }
 
@@ -185,7 +185,7 @@ func (b *Built) FromGo(mi int, src reflect.Value) Val {
 func (b *Built) readMsg(m *Message, src reflect.Value) Val {
 	v := Val{L: make([]Val, len(m.Fields))}
 	for i := range m.Fields {
-		v.L[i] = b.readField(&m.Fields[i], src.Field(i))
+		v.L[i] = b.readField(&m.Fields[i], src.Field(m.GoIndex(i)))
 	}
 	return v
 }
